@@ -5,10 +5,18 @@
 pub struct ExPeekable<I: Iterator>(Peekable<I>);
 
 pub uninterp spec fn pk_rem<I: Iterator>(it: Peekable<I>) -> Seq<I::Item>;
+// the same state as (fixed underlying sequence, position): pk_rem(it) is pk_base(it) from pk_pos(it) on
+pub uninterp spec fn pk_base<I: Iterator>(it: Peekable<I>) -> Seq<I::Item>;
+pub uninterp spec fn pk_pos<I: Iterator>(it: Peekable<I>) -> nat;
+pub open spec fn pk_wf<I: Iterator>(it: Peekable<I>) -> bool {
+    pk_pos(it) <= pk_base(it).len() && pk_rem(it).len() == pk_base(it).len() - pk_pos(it)
+        && forall|i: int| 0 <= i < pk_rem(it).len() ==> #[trigger] pk_rem(it)[i] == pk_base(it)[pk_pos(it) + i]
+}
 
 pub assume_specification<I: Iterator>[ Peekable::<I>::peek ](it: &mut Peekable<I>) -> (r: Option<&I::Item>)
     ensures
         pk_rem(*final(it)) == pk_rem(*old(it)),
+        pk_base(*final(it)) == pk_base(*old(it)), pk_pos(*final(it)) == pk_pos(*old(it)), pk_wf(*old(it)) ==> pk_wf(*final(it)),
         match r {
             Some(x) => pk_rem(*old(it)).len() > 0 && *x == pk_rem(*old(it))[0],
             None => pk_rem(*old(it)).len() == 0,
@@ -16,9 +24,11 @@ pub assume_specification<I: Iterator>[ Peekable::<I>::peek ](it: &mut Peekable<I
 
 pub assume_specification<I: Iterator>[ <Peekable<I> as Iterator>::next ](it: &mut Peekable<I>) -> (r: Option<I::Item>)
     ensures
+        pk_base(*final(it)) == pk_base(*old(it)), pk_wf(*old(it)) ==> pk_wf(*final(it)),
         match r {
-            Some(x) => pk_rem(*old(it)).len() > 0 && x == pk_rem(*old(it))[0] && pk_rem(*final(it)) == pk_rem(*old(it)).skip(1),
-            None => pk_rem(*old(it)).len() == 0 && pk_rem(*final(it)) == pk_rem(*old(it)),
+            Some(x) => pk_rem(*old(it)).len() > 0 && x == pk_rem(*old(it))[0] && pk_rem(*final(it)) == pk_rem(*old(it)).skip(1)
+                && pk_pos(*final(it)) == pk_pos(*old(it)) + 1,
+            None => pk_rem(*old(it)).len() == 0 && pk_rem(*final(it)) == pk_rem(*old(it)) && pk_pos(*final(it)) == pk_pos(*old(it)),
         };
 
 pub assume_specification<I: Iterator>[ <Peekable<I> as Iterator>::nth ](it: &mut Peekable<I>, n: usize) -> (r: Option<I::Item>)
@@ -41,6 +51,7 @@ pub fn chars_peekable<'a>(s: &'a str) -> (r: Peekable<Chars<'a>>)
 #[verifier::external_body]
 pub fn slice_peekable<'a, T>(s: &'a [T]) -> (r: Peekable<std::slice::Iter<'a, T>>)
     ensures pk_rem(r).len() == s@.len(), forall|i: int| 0 <= i < s@.len() ==> *(#[trigger] pk_rem(r)[i]) == s@[i],
+        pk_base(r) == pk_rem(r), pk_pos(r) == 0, pk_wf(r),
 {
     s.iter().peekable()
 }
@@ -80,3 +91,15 @@ pub fn collect_rest<'a, I: Iterator<Item = &'a Token>>(it: Peekable<I>) -> Vec<&
 // derived Clone / PartialEq of Token (external_derive)
 pub assume_specification[ <Token as Clone>::clone ](t: &Token) -> (r: Token)
     ensures r == *t;
+
+// derived PartialEq of Token (external_derive): structural, except that a NaN float never equals itself
+pub assume_specification[ <Token as PartialEq>::eq ](a: &Token, b: &Token) -> (r: bool)
+    ensures (!(*a is Float) || !(*b is Float)) ==> r == (*a == *b);
+
+// `&Token == &Token` goes through the blanket reference impl (no postcondition attachable): expression hole
+#[verifier::external_body]
+pub fn token_eq(a: &Token, b: &Token) -> (r: bool)
+    ensures (!(*a is Float) || !(*b is Float)) ==> r == (*a == *b),
+{
+    a == b
+}
